@@ -42,6 +42,7 @@ func init() {
 			{Name: "unpad-exhaustive-small", Run: extraUnpadExhaustive},
 			{Name: "gcm-all-single-bit-flips", Run: extraBitFlips},
 			{Name: "large-inputs", Run: extraLargeInputs},
+			{Name: "huge-cbc-4MiB", Run: extraHugeCBC},
 		},
 		Assumptions: []string{
 			"AES is a permutation per key (D k (E k x) = x) and GCM Open(Seal(p)) = p: hypotheses of the parametric Lean theorems; the executable Lean AES/GCM instances are validated against FIPS-197 / GCM-spec vectors at build time and against crypto/aes, crypto/cipher on every run",
